@@ -172,6 +172,18 @@ func c14Case(tier string, seed int64, idx int, scratch string) rt.CaseResult {
 		}
 		garbage["rolled-back"] = true
 	}
+	if idx%2 == 0 {
+		// another, fresh database is opened in the same process while this one still has garbage to
+		// collect (the sequence counter is shared by the process: it must not move backwards)
+		decoy, derr := dbx.Open(dbx.Options{Mode: dbx.Inline, Dir: filepath.Join(scratch, "decoy")})
+		if derr != nil {
+			c.Violate("open-failed decoy", derr.Error(), nil)
+			return c
+		}
+		decoy.DB.Set(ctxBg, "decoy", []byte("x"))
+		defer decoy.Close()
+		replay["second_database_opened_before_collection"] = true
+	}
 	filesBefore, _, _ := r.Env.Walk(false)
 	if !quiesce(&c, r.Env, replay) {
 		return c
